@@ -122,10 +122,9 @@ def applyHap (seq : List Char) (h : List Var) : List Char :=
 /-- annotated Sec codons that survive haplotype `h`, at their new positions -/
 def secAfter (sec : List Nat) (h : List Var) : List Nat :=
   sec.filterMap fun s =>
-    -- the first base of an anchored indel is unchanged
-    let touches := h.any fun v =>
-      let vs := if v.ref.length != v.alt.length && v.ref.head? == v.alt.head? then v.start + 1 else v.start
-      vs < s + 3 && s < v.stop
+    -- convention of the command (and of its brute-force twin): a Sec codon is read as U
+    -- only if NO record's location — anchor base included — overlaps it
+    let touches := h.any fun v => v.start < s + 3 && s < v.stop
     if touches then none
     else
       let shift : Int := h.foldl (fun acc v =>
@@ -195,9 +194,11 @@ def rawProducts (c : CleaveCfg) (prot : Pep) (nf : Bool) (dropOpenEnd : Bool) : 
 def productForms (g : Cfg) (prot : Pep) (nf closed : Bool) (endNF : Bool) : List Pep :=
   let raw := rawProducts g.cleave prot nf (endNF && !closed)
   let secs := if g.sect then
-      -- termination at a Sec: the product that would contain the U ends before it
-      (rawProducts g.cleave prot nf false).flatMap fun p =>
-        (sectForms p)
+      -- termination at a Sec: the product that would contain the U ends before it.
+      -- Convention of the command (shared by its brute-force twin): the Sec-terminated
+      -- forms are derived from the REPORTED products only, so for mRNA_end_NF a product
+      -- that reaches the open end of the sequence contributes no Sec-terminated form either.
+      raw.flatMap sectForms
     else []
   let base := raw ++ secs
   let all := if g.w2f then base ++ base.flatMap w2fImages else base
